@@ -233,6 +233,7 @@ class Sim:
         s.peering.standalone = True
         s.posting.enabled = False
         s.scanning.disabled = False
+        s.process.ultimate_exiting_timeout = None   # NB: it would send a REAL SIGKILL to this process
         for k, v in kw.items():
             obj = s
             parts = k.split('__')
